@@ -209,7 +209,7 @@ def strat_hist(draw, tier):
     q0['kind'] = draw(st.sampled_from(['step', 'obs', 'reward', 'shortest', 'term']))
     others = []
     n = draw(st.sampled_from([0, 2, 6, 14, 25, 25]))
-    base = draw(setup_s(tier, max_hw=5))
+    base = copy.deepcopy(q0) if draw(st.integers(0, 3)) else draw(setup_s(tier, max_hw=5))   # mostly: distinct layouts of q0's own shape
     for i in range(n):
         mode = draw(st.sampled_from(['same_key', 'new_layout', 'new_layout', 'new_layout', 'other_pose', 'reshape_twin']))
         if mode == 'reshape_twin':
@@ -239,7 +239,7 @@ def strat_hist(draw, tier):
                 p = cells[(i * 7) % len(cells)]
                 q['state']['grid'][p[0]][p[1]] = 'W' if M.cell(q['state'], p) != 'W' else 'F'
             base = q
-        q['kind'] = draw(st.sampled_from(['step', 'obs', 'reward', 'shortest', 'shortest', 'term']))
+        q['kind'] = draw(st.sampled_from(['shortest'] * 5 + ['obs']) if q0['kind'] == 'shortest' else st.sampled_from(['step', 'obs', 'reward', 'shortest', 'shortest', 'term']))
         q['action'] = draw(gen.action_s)
         others.append(q)
     return {'q': q0, 'others': others}
